@@ -53,6 +53,14 @@ def lock_pairing(chk):
     if lock is None:
         chk.undecided(rule, mk.qual, "no lock created once per decorated function", node=mk.node)
         return
+    # defaulted parameters of the decorator besides the function; they keep their defaults when every use of
+    # exclusive(...) in the package is as a decorator (which calls the result with the function alone)
+    a_ = mk.node.args
+    pos_ = [x.arg for x in a_.posonlyargs + a_.args]
+    mk_defaults = {nm: ("const", d.value) for nm, d in zip(pos_[len(pos_) - len(a_.defaults):], a_.defaults) if isinstance(d, ast.Constant)} if a_.defaults else {}
+    mk_defaults.update({x.arg: ("const", d.value) for x, d in zip(a_.kwonlyargs, a_.kw_defaults) if isinstance(d, ast.Constant)})
+    deco_calls = {id(d) for m in prog.modules.values() for n in ast.walk(m.tree) if isinstance(n, (ast.FunctionDef, ast.AsyncFunctionDef, ast.ClassDef)) for d in n.decorator_list}
+    decorator_only = all(id(n) in deco_calls for m in prog.modules.values() for n in ast.walk(m.tree) if isinstance(n, ast.Call) and prog.resolve(m, n.func) == GUARD)
     LOCK = ("sym", lock)
     ACQ, REL = ("attr", LOCK, "acquire"), ("attr", LOCK, "release")
     inj = [("value", ("sym", "result"))] + [("raise", REPRESENTATIVES[k]) for k in ("AnyException", "OtherBase", "KeyboardInterrupt")]
@@ -82,6 +90,9 @@ def lock_pairing(chk):
                 continue
             kws = dict((k, v) for k, v in acq[0][3] if k)
             nb = kws.get("blocking", acq[0][2][0] if acq[0][2] else None)
+            if nb is not None and nb[0] == "sym" and nb[1] in mk_defaults and decorator_only:
+                # a defaulted parameter of the decorator, which `@exclusive()` never supplies
+                nb = mk_defaults[nb[1]]
             if nb != ("const", False):
                 chk.bad(rule, name, "acquire is blocking: a concurrent accept waits instead of raising RuntimeError", node=fi.node, stmt="blocking-acquire")
                 ok = False
@@ -434,3 +445,15 @@ def run(chk):
     chk.guard("O12.6", META + ".stop", c02.stop_chain, chk)
     # "whatever the payloads are doing": closing never waits for thread payloads (shared with C02)
     chk.guard("O2.5", "<thread runner>", c02.thread_runner, chk)
+    # shutdown() returns when aclose() of every runner does: the asyncio runner re-cancels every unfinished task each
+    # round (a payload that absorbs one cancellation is cancelled again), the trio runner cancels its nursery
+    chk.guard("O2.3", "<asyncio runner>", c02.asyncio_runner, chk)
+    chk.guard("O2.4", "<trio runner>", c02.trio_runner, chk)
+    chk.guard("O2.1", META, c02.supervisor, chk)
+    # "a KeyboardInterrupt has the same effect": it must reach MetaRunner.run AS a KeyboardInterrupt, i.e. pass
+    # manage_payloads / BaseRunner.run / the supervising coroutine unchanged (shared with C01)
+    from . import c01
+
+    found = chk.guard("O1.1", "<runners>", c01.monitors_and_outcomes, chk) or {}
+    chk.guard("O1.3", "<runners>", c01.propagation_to_run, chk, found)
+    chk.guard("O1.5", META, c01.meta_chain, chk)
